@@ -64,16 +64,21 @@ Definition lenient_version (v : bytes) : bool := mem_bytes v gen_lenient_byte_li
 
 Definition pseudo_id_version : bytes := bs "org.matrix.msc4014".
 
-(* CheckFields, on the values its getters return *)
+(* CheckFields, on the values its getters return ([room] is what RoomID() returns): the limits
+   that are not lenient (JSON size, code points of type, state key and sender) come first, then
+   the byte sizes; the room ID, whose code points the parsers have checked, comes last *)
 Definition check_fields (v : bytes) (refs_nil : bool) (json_len : N) (type : bytes)
-    (state_key : option bytes) (sender : bytes) : verdict :=
+    (state_key : option bytes) (sender room : bytes) : verdict :=
   if refs_nil then VErr
   else if max_event_length <? json_len then VTooLarge false
   else if max_id_length <? rune_count type then VTooLarge false
   else if match state_key with Some k => max_id_length <? rune_count k | None => false end
     then VTooLarge false
+  else if max_id_length <? rune_count sender then VTooLarge false
   else if max_id_length <? len type then VTooLarge (lenient_version v)
   else if match state_key with Some k => max_id_length <? len k | None => false end
     then VTooLarge (lenient_version v)
-  else if bytes_eqb v pseudo_id_version then check_id_length sender
-  else check_id sender 64.
+  else match (if bytes_eqb v pseudo_id_version then check_id_length sender else check_id sender 64) with
+       | VOk => check_id_length room
+       | e => e
+       end.
